@@ -11,6 +11,8 @@ Reads with `ast` (nothing is imported or executed):
                    |  if self.get('x'): raise ValueError(..)                            (forbidden)
         alias blocks   if self.S: self.D = self.S | float(self.S) ; self.R = <const>
         derive block   if self.F is None: self.F = bool(self.G - 1)
+                       (once; either right after the mode default or after any number of
+                        alias blocks -- its position is part of the generated table)
         ignore blocks  if self.X: pass
 Anything else => TranslationError (fail closed): the proof obligation
 `generated_table_wf` is then re-opened by the harness.
@@ -157,6 +159,25 @@ def translate():
             return cname(n.args[0])
         return None
 
+    def derive_block(st):
+        """if self.F is None: self.F = bool(self.G - 1)  ->  (F, G), else None"""
+        if not (isinstance(st, ast.If) and not st.orelse):
+            return None
+        t = st.test
+        if isinstance(t, ast.Compare) and len(t.ops) == 1 and isinstance(t.ops[0], ast.Is) and self_attr(t.left) \
+                and isinstance(t.comparators[0], ast.Constant) and t.comparators[0].value is None \
+                and len(st.body) == 1 and isinstance(st.body[0], ast.Assign):
+            f = self_attr(t.left)
+            a = st.body[0]
+            v = a.value
+            if len(a.targets) == 1 and self_attr(a.targets[0]) == f and isinstance(v, ast.Call) \
+                    and isinstance(v.func, ast.Name) and v.func.id == 'bool' and len(v.args) == 1 \
+                    and isinstance(v.args[0], ast.BinOp) and isinstance(v.args[0].op, ast.Sub) \
+                    and self_attr(v.args[0].left) and isinstance(v.args[0].right, ast.Constant) \
+                    and v.args[0].right.value == 1:
+                return (f, self_attr(v.args[0].left))
+        return None
+
     # 1. mode default
     s0 = body[0]
     ok = (isinstance(s0, ast.If) and not s0.orelse and isinstance(s0.test, ast.UnaryOp)
@@ -167,11 +188,18 @@ def translate():
         fail('first statement of _verify is not the mode default: %s' % ast.unparse(s0))
     mode_default = cname(s0.body[0].value)
 
+    # the use_mpi block may stand right after the mode default (position None) ...
+    derive, derive_pos, nxt = None, None, 1
+    if derive_block(body[1]) is not None:
+        derive, derive_pos, nxt = derive_block(body[1]), 'None', 2
+        if len(body) < 3:
+            fail('_verify too short')
+
     # 2. the mode chain
     rules = []
-    node = body[1]
+    node = body[nxt]
     if not isinstance(node, ast.If):
-        fail('second statement of _verify is not the mode chain')
+        fail('statement %d of _verify is not the mode chain' % (nxt + 1))
     while True:
         t = node.test
         if isinstance(t, ast.Compare) and len(t.ops) == 1 and self_attr(t.left) == 'mode':
@@ -209,15 +237,13 @@ def translate():
         else:
             fail('mode chain has an else branch')
 
-    # 3. alias / derive / ignore blocks
-    aliases, ignored, derive = [], [], None
-    for st in body[2:]:
+    # 3. alias / ignore blocks, and the use_mpi block after any number of alias blocks (position Some n)
+    aliases, ignored = [], []
+    for st in body[nxt + 1:]:
         if not (isinstance(st, ast.If) and not st.orelse):
             fail('unexpected statement in _verify: %s' % ast.unparse(st))
         src = self_attr(st.test)
         if src is not None:
-            if derive is not None and not (len(st.body) == 1 and isinstance(st.body[0], ast.Pass)):
-                fail('alias block after the use_mpi block: %s' % ast.unparse(st))
             if len(st.body) == 1 and isinstance(st.body[0], ast.Pass):
                 ignored.append(src)
                 continue
@@ -239,20 +265,9 @@ def translate():
             aliases.append((src, dst, conv, rf, atom(a2.value.value)))
             continue
         # derive block
-        t = st.test
-        if isinstance(t, ast.Compare) and len(t.ops) == 1 and isinstance(t.ops[0], ast.Is) and self_attr(t.left) \
-                and isinstance(t.comparators[0], ast.Constant) and t.comparators[0].value is None \
-                and len(st.body) == 1 and isinstance(st.body[0], ast.Assign):
-            f = self_attr(t.left)
-            a = st.body[0]
-            v = a.value
-            if len(a.targets) == 1 and self_attr(a.targets[0]) == f and isinstance(v, ast.Call) \
-                    and isinstance(v.func, ast.Name) and v.func.id == 'bool' and len(v.args) == 1 \
-                    and isinstance(v.args[0], ast.BinOp) and isinstance(v.args[0].op, ast.Sub) \
-                    and self_attr(v.args[0].left) and isinstance(v.args[0].right, ast.Constant) \
-                    and v.args[0].right.value == 1 and derive is None:
-                derive = (f, self_attr(v.args[0].left))
-                continue
+        if derive_block(st) is not None and derive is None:
+            derive, derive_pos = derive_block(st), '(Some %d%%nat)' % len(aliases)
+            continue
         fail('statement of _verify not understood: %s' % ast.unparse(st))
     if derive is None:
         fail('use_mpi block not found')
@@ -272,9 +287,12 @@ def translate():
     out.append('Definition td_aliases : list alias := [\n  %s].' % ';\n  '.join(
         'mkAlias %s %s %s %s %s' % (S(s), S(d), c, S(rf), rv) for s, d, c, rf, rv in aliases))
     out.append('Definition td_derive : string * string := (%s, %s).' % (S(derive[0]), S(derive[1])))
+    out.append('(* where the use_mpi block stands: None = right after the mode default, before the mode checks;\n'
+               '   Some n = after the mode checks and after the first n alias blocks *)')
+    out.append('Definition td_derive_pos : option nat := %s.' % derive_pos)
     out.append('Definition td_ignored : list string := [%s].' % '; '.join(S(x) for x in ignored))
     out.append('Definition td_table : table :=\n  mkTable td_schema td_defaults td_mode_default td_rules '
-               'td_aliases td_derive td_ignored.')
+               'td_aliases td_derive td_derive_pos td_ignored.')
     return '\n'.join(out) + '\n'
 
 
@@ -339,25 +357,33 @@ def translate_pd():
         fail('PilotDescription._verify changed; the hand-written model pd_rules no longer applies:\n%s' % got)
     sch, dfl = read_tables(schema, defaults, cname, consts)
     S = coq_string
-    out = ['', '(* from src/radical/pilot/pilot_description.py *)']
+    out = ['(* GENERATED by translators/descr.py from src/radical/pilot/pilot_description.py -- do not edit *)',
+           'From Coq Require Import ZArith List String.', 'From RP Require Import Descr.Types.',
+           'Import ListNotations.', '']
     out.append('Definition pd_schema : list (string * ftype) := [\n  %s].' % ';\n  '.join(
         '(%s, %s)' % (S(k), t) for k, t in sch))
     out.append('Definition pd_defaults : list (string * val) := [\n  %s].' % ';\n  '.join(
         '(%s, %s)' % (S(k), v) for k, v in dfl))
     out.append('Definition pd_table : table :=\n  mkTable pd_schema pd_defaults EmptyString [] [] '
-               '(EmptyString, EmptyString) [].')
+               '(EmptyString, EmptyString) (Some 0%nat) [].')
     return '\n'.join(out) + '\n'
 
 
 def main():
-    text = translate() + translate_pd()
-    changed = write_if_changed(os.path.join(GEN, 'Descr.v'), text)
-    print('Gen/Descr.v %s' % ('rewritten' if changed else 'unchanged'))
+    """The two classes go to two files, so that a failure on one leaves the other up to date."""
+    failed = []
+    for name, fn, out in (('task_description.py', translate, 'Descr.v'),
+                          ('pilot_description.py', translate_pd, 'PDescr.v')):
+        try:
+            text = fn()
+            changed = write_if_changed(os.path.join(GEN, out), text)
+            print('Gen/%s %s' % (out, 'rewritten' if changed else 'unchanged'))
+        except TranslationError as e:
+            failed.append('TRANSLATION-ERROR %s: %s' % (name, e))
+    if failed:
+        print(' ;; '.join(failed))
+        sys.exit(3)
 
 
 if __name__ == '__main__':
-    try:
-        main()
-    except TranslationError as e:
-        print('TRANSLATION-ERROR task_description.py: %s' % e)
-        sys.exit(3)
+    main()
